@@ -131,6 +131,17 @@ class C04(Property):
                 a = simple(lo, lo + 1, 1)
                 g = rng.choice([half - 1, half, half + 1])
                 b = simple(min(lo + 1 + g, n - 1), min(lo + 2 + g, n), 1)
+            # multi-part operands whose nearest parts are closer over the origin than along the line
+            if circular and n >= 20 and rng.random() < 0.35:
+                j = rng.randrange(0, 3)
+                s1 = rng.choice([1, -1])
+                pa = [[j, j + 2, s1], [n // 3, n // 3 + 2, s1]]
+                pb = [[n // 2, n // 2 + 2, 1], [n - 4 - j, n - 2 - j, 1]]
+                if s1 == -1:
+                    pa.reverse()
+                a, b = compound(pa), compound(pb)
+                if rng.random() < 0.5:
+                    a, b = b, a
             return {"f": f, "a": a, "b": b, "wrap": w}
         if f == "connect":
             k = rng.choice([1, 2, 2, 3, 3, 4, 6])
